@@ -588,9 +588,16 @@ impl World {
                 .collect();
             if let Some(m) = missing.first() {
                 let at = after.entries.iter().find(|e| e.index == m.0);
+                // did a node whose vote was counted hold the entry as committed (the vote check could have seen it)?
+                let voter_knew = (0..N).any(|v| v != i && self.ghost.counted[i][v] != 0 && self.nodes[v].storage.entries.iter().any(|e| e.committed && e.index == m.0 && e.term == m.1 && e.data == m.2));
                 viols.push(Viol {
                     property: "C29",
-                    signature: format!("new-leader-lacks-committed-entry|{}|cause={}", if at.is_some() { "other-entry-at-index" } else { "index-absent" }, self.cause()),
+                    signature: format!(
+                        "new-leader-lacks-committed-entry|{}|{}|cause={}",
+                        if at.is_some() { "other-entry-at-index" } else { "index-absent" },
+                        if voter_knew { "a-voter-held-it-committed" } else { "no-voter-held-it-committed" },
+                        self.cause()
+                    ),
                     what: format!(
                         "node {} became Leader for term {} without the leader-committed entry (index {}, term {}, data {}); its log holds {:?} there ({} committed entries missing)",
                         i,
